@@ -304,3 +304,12 @@ package kvm
 //@ func (c *dataCopy) Run(in []byte) (r []byte, err error)
 //@   for C10
 //@   ensures [outputIsACopy] err == nil && (len(r) == 0 || fresh(r)) && len(r) == len(in)
+
+// The modexp precompile never panics, whatever the length of its input (the three length words and the
+// operands are read with getData, which zero-pads; the header is skipped only if it is there). The sizes
+// it asks getData for are bounded by what RequiredGas priced (callee preconditions assumed).
+//@ func (c *bigModExp) Run(input []byte) (r []byte, err error)
+//@   for C10
+//@   safe
+//@   modifies *
+//@   opt assumecallreqs
